@@ -9,6 +9,8 @@
      pays a registered script and that no input of the chain spends - nothing else (no phantom, no spent cell),
      nothing missing.  Hypotheses = what a valid chain guarantees: distinct block numbers, distinct transaction
      hashes, inputs refer to earlier transactions only.
+   - [C03_skipping_untouched_blocks_is_exact]: the same holds when only a selection of the blocks is indexed, as the
+     client does, provided every left-out block touches no registered script (criterion: [C03_untouched_criterion]).
    The end-to-end theorems cover a script set fixed from genesis and blocks indexed in chain order; set_scripts,
    fork rollback and fetched transactions are covered per operation (below, C04, C09) and by the correspondence
    ops c03 / c06 against an independent ground-truth index over whole client histories.
@@ -24,7 +26,7 @@
    - [C03_fetch_does_not_disturb_index]: add_fetched_tx leaves cells, history, scripts and progress
      alone and never moves a transaction the index stores (the defect repaired by dd74d43). *)
 From Coq Require Import NArith List.
-From LC Require Import Store StoreProofs IndexSpec IndexRefinement IndexSpecMeaning.
+From LC Require Import Store StoreProofs IndexSpec IndexRefinement IndexSpecMeaning IndexSkip.
 Import ListNotations.
 Open Scope N_scope.
 
@@ -89,6 +91,25 @@ Proof.
   apply spec_chain_is_live_cells; [apply well_formed_pos_ok; exact Hwf | exact Href].
 Qed.
 Print Assumptions C03_index_is_exactly_the_live_cells.
+
+(* The client indexes only blocks whose filter matched.  Indexing any selection of the chain's blocks that leaves out
+   only blocks which touch no registered script - no output paying one, no input naming a live entry - yields the abstract
+   index of the WHOLE chain ([selects]: keep a block, or skip it if it is [untouched] after the blocks before it). *)
+Theorem C03_skipping_untouched_blocks_is_exact :
+  forall regs bs sel,
+    well_formed_chain bs -> selects (reg_of regs) empty_cmap bs sel ->
+    forall k, a_get ckey_eqb k (cells (fold_left filter_block sel (fresh_store regs))) = spec_chain (reg_of regs) bs k.
+Proof. exact index_of_selection. Qed.
+Print Assumptions C03_skipping_untouched_blocks_is_exact.
+
+Theorem C03_untouched_criterion :
+  forall reg E b,
+    (forall t, In t (b_txs b) ->
+       (forall inp k, In inp (t_inputs t) -> E k = Some (fst inp) -> k_oi k <> snd inp) /\
+       (forall o, In o (t_outputs t) -> reg 0 (o_lock o) = false /\ (forall s, o_type o = Some s -> reg 1 s = false))) ->
+    untouched reg E b.
+Proof. exact untouched_block. Qed.
+Print Assumptions C03_untouched_criterion.
 
 (* non-vacuity: two blocks; the second spends the first output of the first block's transaction and pays the watched
    lock script 5 again; the hypotheses hold and the index holds exactly the two unspent cells *)
